@@ -1,3 +1,149 @@
-(* placeholder until the proofs land *)
+(* Properties/C09.v — edit histories keep an ordered tree; queries observe exactly that tree.
+   Model: Model/Edits.v ([exec] on a pure forest state over object identities; queries on the
+   state and on the rose tree [reify] unfolds).  Spec: Spec/ListModel.v (ordered-list model
+   [step] with firstn/skipn/nth only; invariant [Inv]; proviso [pre]; query specifications).
+   Only statements closed by [exact]; proofs are in Proofs/C09_*.v. *)
 From MP Require Import Common.Base.
 From MP Require Import Model.Edits.
+From MP Require Import Spec.ListModel.
+From MP Require Import Proofs.C09_Refine.
+From MP Require Import Proofs.C09_Inv.
+From MP Require Import Proofs.C09_Main.
+From MP Require Import Proofs.C09_Total.
+
+(** Every edit keeps the forest invariant (listed child <-> parent link, no node listed
+    twice, no cycle) under the proviso: the node being attached by add_child / replace_child
+    is a detached root, distinct from and not an ancestor of the target.  Edits that refuse
+    (ValueError) need no proviso. *)
+Theorem C09_inv : forall fuel o s, Inv s -> pre s o -> Inv (fst (exec fuel o s)).
+Proof. exact c09_inv. Qed.
+Print Assumptions C09_inv.
+
+(** ... hence along every history, in particular from the all-detached forest. *)
+Theorem C09_inv_history : forall fuel h s, Inv s -> hist_ok fuel s h -> Inv (run fuel h s).
+Proof. exact c09_inv_history. Qed.
+Print Assumptions C09_inv_history.
+
+Theorem C09_inv_from_detached : forall fuel h nm rg,
+  let s0 := mkst (fun _ => []) (fun _ => None) nm rg in
+  hist_ok fuel s0 h -> Inv (run fuel h s0).
+Proof. exact c09_inv_from_detached. Qed.
+Print Assumptions C09_inv_from_detached.
+
+(** After each edit the child lists are what the ordered-list model predicts; where the list
+    model refuses, the edit raises ValueError and returns the state it was given.  The only
+    other exceptions come from the registry walk of replace_child(delete_old=True). *)
+Theorem C09_refines : forall fuel o s,
+  match step (name s) o (kids s) with
+  | None => exec fuel o s = (s, Raise ValueError)
+  | Some (ks', r) =>
+      (forall q, kids (fst (exec fuel o s)) q = ks' q) /\
+      (snd (exec fuel o s) = ret_of r \/
+       (exists p old new, o = ReplaceChild p old new true) /\
+       exists e, snd (exec fuel o s) = Raise e /\ registry_exn e)
+  end.
+Proof. exact c09_refines. Qed.
+Print Assumptions C09_refines.
+
+(** A failing edit leaves the state unchanged (the registry exceptions of delete_old=True on
+    a node that is not registered are outside the claim; see notes/C09.md). *)
+Theorem C09_fail_unchanged : forall fuel o s e,
+  snd (exec fuel o s) = Raise e ->
+  (e = ValueError /\ fst (exec fuel o s) = s) \/
+  ((exists p old new, o = ReplaceChild p old new true) /\ registry_exn e).
+Proof. exact c09_fail_unchanged. Qed.
+Print Assumptions C09_fail_unchanged.
+
+(** shift never fails on a listed child, at an edge or elsewhere, and returns the index at
+    which the child now sits. *)
+Theorem C09_shift : forall fuel s p c d sib,
+  In c (kids s p) ->
+  exists i, snd (exec fuel (Shift p c d sib) s) = RInt i /\
+            nth_error (kids (fst (exec fuel (Shift p c d sib) s)) p) i = Some c /\
+            length (kids (fst (exec fuel (Shift p c d sib) s)) p) = length (kids s p).
+Proof. exact c09_shift. Qed.
+Print Assumptions C09_shift.
+
+(** ... exactly two slots are exchanged (or none), chosen as the list model says; *)
+Theorem C09_shift_positions : forall fuel s p c d sib i,
+  pos c (kids s p) = Some i ->
+  match spec_target (name s) (kids s p) i d sib with
+  | None => fst (exec fuel (Shift p c d sib) s) = s /\ snd (exec fuel (Shift p c d sib) s) = RInt i
+  | Some j => (forall q, kids (fst (exec fuel (Shift p c d sib) s)) q =
+                         if Nat.eqb q p then swap_at i j (kids s p) else kids s q) /\
+              snd (exec fuel (Shift p c d sib) s) = RInt j
+  end.
+Proof. exact c09_shift_positions. Qed.
+Print Assumptions C09_shift_positions.
+
+(** ... and with sib=True the other slot is the NEAREST same-named sibling on that side. *)
+Theorem C09_sib_left_nearest : forall nm l i,
+  match sib_left nm l i with
+  | Some j => j < i /\ nm (nth j l 0) = nm (nth i l 0) /\
+              forall k, j < k < i -> nm (nth k l 0) <> nm (nth i l 0)
+  | None => forall k, k < i -> nm (nth k l 0) <> nm (nth i l 0)
+  end.
+Proof. exact sib_left_nearest. Qed.
+Print Assumptions C09_sib_left_nearest.
+
+Theorem C09_sib_right_nearest : forall nm l i,
+  match sib_right nm l i with
+  | Some j => i < j < length l /\ nm (nth j l 0) = nm (nth i l 0) /\
+              forall k, i < k < j -> nm (nth k l 0) <> nm (nth i l 0)
+  | None => forall k, i < k < length l -> nm (nth k l 0) <> nm (nth i l 0)
+  end.
+Proof. exact sib_right_nearest. Qed.
+Print Assumptions C09_sib_right_nearest.
+
+(** Every query answers what the ordered tree implies: first / all children by name,
+    first / all descendants in document order, single / all nodes by path (empty path:
+    nothing), child index (None when absent), ancestry (the chain of listers from a detached
+    root), and the tree the recursive queries walk is the one the child lists describe. *)
+Theorem C09_queries :
+  (forall nm t, find_child nm t = spec_find_child nm t) /\
+  (forall nm t, find_all_children nm t = spec_find_all_children nm t) /\
+  (forall nm t, find_descendant nm t = spec_find_descendant nm t) /\
+  (forall nm t acc, find_all_descendants nm t acc = acc ++ spec_find_all_descendants nm t) /\
+  (forall path t, find_single_node_by_path path t = spec_single_by_path path t) /\
+  (forall path t, find_all_nodes_by_path path t = spec_all_by_path path t) /\
+  (forall s p c, child_index s p c = pos c (kids s p) /\
+                 match child_index s p c with
+                 | Some i => nth_error (kids s p) i = Some c /\ ~ In c (firstn i (kids s p))
+                 | None => ~ In c (kids s p)
+                 end) /\
+  (forall s fuel i l, Inv s -> get_ancestry fuel s i = Some l -> is_ancestry s i l) /\
+  (forall fuel s i t, reify fuel s i = Some t -> tree_of s i t).
+Proof. exact c09_queries. Qed.
+Print Assumptions C09_queries.
+
+(** In a universe of n nodes the walks are total with fuel n+1 (what harness/c09.py passes):
+    get_ancestry terminates with the ancestry, the recursive queries see the whole tree, and
+    the universe bound is kept by every edit whose operands lie in the universe. *)
+Theorem C09_ancestry_total : forall s n i, Inv s -> bounded n s ->
+  exists l, get_ancestry (S n) s i = Some l /\ is_ancestry s i l.
+Proof. exact ancestry_total. Qed.
+Print Assumptions C09_ancestry_total.
+
+Theorem C09_reify_total : forall s n i, Inv s -> bounded n s ->
+  exists t, reify (S n) s i = Some t /\ tree_of s i t.
+Proof. exact reify_total. Qed.
+Print Assumptions C09_reify_total.
+
+Theorem C09_bounded : forall fuel n o s, bounded n s -> op_in n o -> bounded n (fst (exec fuel o s)).
+Proof. exact c09_bounded. Qed.
+Print Assumptions C09_bounded.
+
+(** Non-vacuity: a 7-step history over 5 nodes that satisfies the proviso (with a refused
+    remove_child and a refused replace_child in it), its final child lists and parent
+    links, and three return values. *)
+Example C09_example_history_ok : hist_ok 5 ex_s0 ex_h.
+Proof. exact ex_hist_ok. Qed.
+Print Assumptions C09_example_history_ok.
+
+Example C09_example_result :
+  map (kids (run 5 ex_h ex_s0)) [0; 1; 2; 3] = [[2; 4; 1]; []; []; []] /\
+  map (parent (run 5 ex_h ex_s0)) [1; 2; 3; 4] = [Some 0; Some 0; None; Some 0] /\
+  map (fun o => snd (exec 5 o (run 5 (firstn 3 ex_h) ex_s0))) [Shift 0 1 RIGHT true; Shift 0 3 RIGHT false; RemoveChild 0 4]
+    = [RInt 2; RInt 2; Raise ValueError].
+Proof. exact ex_result. Qed.
+Print Assumptions C09_example_result.
